@@ -9,6 +9,7 @@
 import TfelVerif.Common.M3
 import TfelVerif.C23.Spec
 import TfelVerif.C23.Lemmas
+import TfelVerif.C23.Lemmas2
 import TfelVerif.C23.GenN2Chains
 import TfelVerif.C23.PropsN2a
 import TfelVerif.C23.PropsN2b
